@@ -567,7 +567,44 @@ def rule_bulk_accessors(ctx):
     ctx.covered('R14.12', 'bulk particle accessors: the setter is the getter with both sides of every assignment exchanged', n, floor=10)
 
 
+def rule_unsorted_removal_moves(ctx, rule='R14.14'):
+    """R14.14: removing particle `index` without keeping the order moves exactly one particle: the last one into the hole
+    (r->N--; particles[index] = particles[r->N]). Everything that re-indexes after a removal relies on that rule - the
+    collision search renames its pending pairs "old last index -> index", the lookup table is rebuilt from it, MERCURIUS /
+    TRACE shift their maps. In the statement list of the unsorted path the whole-particle stores into r->particles are
+    therefore exactly {particles[index] = particles[r->N]}, and `index` keeps its value."""
+    tu = cfront.load_tu('particle.c')
+    fn = tu.func('reb_simulation_remove_particle')
+    n = 0
+
+    def lists(node):
+        if node.get('kind') == 'CompoundStmt':
+            yield node
+        for c in node.get('inner', []) or []:
+            if isinstance(c, dict):
+                yield from lists(c)
+    for comp in lists(cfront.body(fn)):
+        items = comp.get('inner', [])
+        direct = [strip(st) for st in items if is_assign(strip(st)) and re.match(r'^r\.particles\[index\]$', render(strip(st)['inner'][0]).replace(' ', ''))
+                  and re.match(r'^r\.particles\[r\.N\]$', render(strip(st)['inner'][1]).replace(' ', ''))]
+        if not direct:
+            continue
+        n += 1
+        stores = [e for e in walk(comp) if is_assign(e) and e['opcode'] == '=' and re.match(r'^r\.particles\[[^\]]*\]$', render(e['inner'][0]).replace(' ', ''))]
+        extra = [e for e in stores if e not in direct]
+        for e in extra:
+            ctx.report(rule, 'remove:unsorted:extra-move', 'src/particle.c:%s reb_simulation_remove_particle' % line_of(e),
+                       'the unsorted removal also stores %s: more than the last particle changes its index, but the re-indexing after a removal (pending collisions, lookup table, encounter maps) renames only "last -> index" - later work is done on the wrong particles' % render(e))
+        for e in walk(comp):
+            if is_assign(e) and render(e['inner'][0]).replace(' ', '') == 'index':
+                ctx.report(rule, 'remove:unsorted:index', 'src/particle.c:%s reb_simulation_remove_particle' % line_of(e),
+                           'the index of the hole is reassigned (%s) before the last particle is moved into it: the particle ends up in another slot than the one callers re-index to' % render(e))
+    anchor(n >= 1, 'unsorted removal path (particles[index] = particles[r->N]) in reb_simulation_remove_particle')
+    ctx.covered(rule, 'unsorted removal moves exactly the last particle into the hole', n, floor=1)
+
+
 def run(ctx):
+    rule_unsorted_removal_moves(ctx)
     from . import c15
     c15.rule_leaf_occupancy(ctx)     # R15.13: a removed (flagged) particle stays reachable until the tree update drops it
     from . import pyrules
